@@ -284,11 +284,26 @@ func Build(r *vf.Rand, k Kind, o Opts) (*Built, error) {
 		b.RTPSink, b.RTCPSink = &Sink{Capture: o.CaptureDumps}, &Sink{Capture: o.CaptureDumps}
 		opts := []packetdump.PacketDumperOption{packetdump.RTPWriter(b.RTPSink), packetdump.RTCPWriter(b.RTCPSink),
 			packetdump.WithLoggerFactory(lf)}
-		b.BinaryDump = r.Bool() || o.CaptureDumps
-		if b.BinaryDump {
+		b.BinaryDump = r.Bool()
+		switch {
+		case b.BinaryDump:
 			opts = append(opts, packetdump.RTPBinaryFormatter(BinRTP), packetdump.RTCPBinaryFormatter(BinRTCP))
+		case o.CaptureDumps:
+			// captured dumps are compared between runs: the default RTCP text prints addresses,
+			// the default RTP text (header fields and payload length) is deterministic
+			opts = append(opts, packetdump.RTCPBinaryFormatter(BinRTCP))
 		}
-		b.Desc = fmt.Sprintf("%s(binary=%v)", k, b.BinaryDump)
+		filtered := r.Bool()
+		if filtered {
+			// filters that look at packet contents; they run on the logger goroutine
+			opts = append(opts, packetdump.RTPFilter(func(p *rtp.Packet) bool {
+				return len(p.Payload) == 0 || p.Payload[len(p.Payload)-1]&3 != 0 || p.Header.SequenceNumber&7 == 0
+			}), packetdump.RTCPPerPacketFilter(func(p rtcp.Packet) bool {
+				ssrcs := p.DestinationSSRC()
+				return len(ssrcs) == 0 || ssrcs[0]&1 == 0
+			}))
+		}
+		b.Desc = fmt.Sprintf("%s(binary=%v,content-filters=%v)", k, b.BinaryDump, filtered)
 		if k == DumpSender {
 			f, err = packetdump.NewSenderInterceptor(opts...)
 		} else {
